@@ -12,6 +12,8 @@
                           Err   t = "err"  (the operation raises an exception)
    Keys    [s, i, num]: the index text s as written in the program; num/i: it is the decimal integer i
                         (lists convert it, negative counts from the end; maps use the text s as key).
+                        For a non-numeric text, i is its position in the executor's fixed key pool: it
+                        only fixes the canonical order (Rank) of map entries in the abstract form.
 
    State   store  variable -> value
            alias  sequence of [name, kind, val]   what each alias reader yields (never touched)
@@ -43,10 +45,9 @@ List(s)       == [t |-> "l", n |-> 0, e |-> s, ks |-> <<>>]
 MapOf(ks, vs) == [t |-> "m", n |-> 0, e |-> vs, ks |-> ks]      \* parallel: key ks[j] maps to e[j]
 Err           == [t |-> "err", n |-> 0, e |-> <<>>, ks |-> <<>>]
 
-SKey(s)    == [s |-> s, i |-> 0, num |-> FALSE]
+SKey(s, i) == [s |-> s, i |-> i, num |-> FALSE]
 NKey(s, i) == [s |-> s, i |-> i, num |-> TRUE]
-Rank(k) == IF k.num THEN 1000 + k.i
-           ELSE CASE k.s = "k" -> 1 [] k.s = "m" -> 2 [] k.s = "n" -> 3 [] OTHER -> 9
+Rank(k) == IF k.num THEN 1000 + k.i ELSE k.i
 
 Lookup(v, k)  == LET S == {j \in 1..Len(v.ks) : v.ks[j].s = k.s} IN IF S = {} THEN 0 ELSE CHOOSE j \in S : TRUE
 Pos(v, k)     == IF ~k.num THEN -1 ELSE IF k.i < 0 THEN k.i + Len(v.e) ELSE k.i      \* 0-based list position
